@@ -369,10 +369,10 @@ def verify_hyperparameters(num_input_dims=None,
                          "integers. Seeing dominant_dim %s and weak_dim %s" %
                          (dominant_dim, weak_dim))
       if (monotonicities[dominant_dim] != monotonicities[weak_dim] or
-          monotonicities[dominant_dim] == 0):
+          not monotonicities[dominant_dim]):
         raise ValueError("Range dominance constraint's dimensions must have "
                          "the same direction of monotonicity. Dimension %d is "
-                         "%d. Dimension %d is %d." %
+                         "%s. Dimension %d is %s." %
                          (dominant_dim, monotonicities[dominant_dim], weak_dim,
                           monotonicities[weak_dim]))
       for dim in [dominant_dim, weak_dim]:
